@@ -1,24 +1,41 @@
 #!/bin/bash
-# tools/seeded_confirm.sh <PROPERTY-ID> <dir with patch.diff + demo.rs> <crate for the demo test, e.g. uplc>
-# 1. in the scratch worktree /tmp/confirm (clean checkout of /repo HEAD): demo passes without the patch,
-#    fails with it, and the whole existing suite passes with it;
-# 2. on /repo: apply the patch, run ./check <ID>, undo the patch.  Prints a summary.
+# tools/seeded_confirm.sh <PROPERTY-ID> <dir with patch.diff + demo.rs [+ PLACE]> [crate for tests/ placement]
+# PLACE (optional) lines:  append <file>            -> demo.rs is appended to <file>
+#                          file <dest>              -> demo.rs is copied to <dest>
+#                          modline <file> <text…>   -> <text> is appended to <file>
+#                          cmd <test command…>      -> how to run the demo (default: cargo test -p <crate> --test seeded_demo)
 set -u
 ID=$1; DIR=$2; CRATE=${3:-uplc}
 W=/tmp/confirm
+place() {
+  if [ -f $DIR/PLACE ]; then
+    while read -r kind a rest; do
+      case $kind in
+        append) cat $DIR/demo.rs >> $W/$a ;;
+        file) mkdir -p $(dirname $W/$a); cp $DIR/demo.rs $W/$a ;;
+        modline) echo "$rest" >> $W/$a ;;
+      esac
+    done < $DIR/PLACE
+  else
+    mkdir -p $W/crates/$CRATE/tests && cp $DIR/demo.rs $W/crates/$CRATE/tests/seeded_demo.rs
+  fi
+}
+CMD="cargo test -p $CRATE --test seeded_demo --offline"
+if [ -f $DIR/PLACE ] && grep -q "^cmd " $DIR/PLACE; then CMD=$(grep "^cmd " $DIR/PLACE | head -1 | cut -d' ' -f2-); fi
 cd $W && git checkout -q -- . && git clean -qfd -e target && git checkout -q --detach $(git -C /repo rev-parse HEAD)
-mkdir -p crates/$CRATE/tests && cp $DIR/demo.rs crates/$CRATE/tests/seeded_demo.rs
-echo "== demo on clean tree (must pass)"
-cargo test -p $CRATE --test seeded_demo --offline 2>&1 | tail -4
+place
+echo "== demo on clean tree (must pass): $CMD"
+$CMD 2>&1 | tail -4
 CLEAN_RC=${PIPESTATUS[0]}
+git checkout -q -- . && git clean -qfd -e target
 git apply $DIR/patch.diff || { echo "PATCH DOES NOT APPLY"; exit 3; }
-echo "== demo with the patch (must fail)"
-cargo test -p $CRATE --test seeded_demo --offline 2>&1 | tail -6
-PATCH_RC=${PIPESTATUS[0]}
-rm -f crates/$CRATE/tests/seeded_demo.rs
 echo "== existing suite with the patch (must pass)"
 cargo nextest run --workspace --no-fail-fast --tool-config-file pb:/w/lib/nextest.toml --profile pb --test-threads 8 --offline 2>&1 | tail -3
 SUITE_RC=${PIPESTATUS[0]}
+place
+echo "== demo with the patch (must fail)"
+$CMD 2>&1 | tail -6
+PATCH_RC=${PIPESTATUS[0]}
 git checkout -q -- . && git clean -qfd -e target
 echo "== ./check $ID with the patch applied to /repo"
 cd /repo && git apply $DIR/patch.diff
